@@ -696,6 +696,10 @@ impl Hist<'_> {
         }
         let mut inexact = 0u64;
         let mut kinds: BTreeMap<&str, u64> = BTreeMap::new();
+        let undecodable: Vec<Value> = decs.iter().filter(|(_, d)| matches!(d, Dec::Other)).map(|(f, _)| {
+            let err = if f.uri.ends_with(".cer") { Cert::decode(f.bytes.clone()).err().map(|e| e.to_string()) } else { None };
+            json!({"uri": f.uri, "decode_error": err, "base64": base64::engine::general_purpose::STANDARD.encode(&f.bytes)})
+        }).collect();
         let repo_terms: Vec<String> = decs.iter().map(|(f, d)| {
             *kinds.entry(match d { Dec::Ca(_) => "ca_cert", Dec::Router(_) => "router_cert", Dec::Mft(_) => "manifest", Dec::Crl(_) => "crl", Dec::Roa(_) => "roa", Dec::Aspa(_) => "aspa", Dec::Other => "other" }).or_default() += 1;
             let u = it.uri_t(&f.uri);
@@ -798,9 +802,24 @@ impl Hist<'_> {
         });
         let rejected_payloads: BTreeSet<(u32, String, u8)> = w.rej.keys().filter_map(|u| files.get(u)).flat_map(|f| match decode(f) {
             Dec::Roa(r) => r.content().iter().map(|x| (r.content().as_id().into_u32(), pfx_str(&x), x.max_length())).collect::<Vec<_>>(), _ => vec![] }).collect();
+        // C02's finding F02f seen from the repository: a parent signed and published a child certificate without any
+        // resources (entitlement x issuer certificate empty when the child had a request open); the decoder refuses it and
+        // whatever the child still publishes is unreachable or over-claiming. Everything wrong must lie with that child.
+        let empty_certs: Vec<String> = undecodable.iter().filter(|u| u["decode_error"].as_str().map(|e| e.contains("both AS and IP resources extensions are missing")).unwrap_or(false))
+            .map(|u| json_str(&u["uri"])).collect();
+        let empty_cert_children: Vec<String> = empty_certs.iter().filter_map(|u| {
+            let key = split_uri(u).1.trim_end_matches(".cer").to_uppercase();
+            current_keys.get(&key).map(|(ca, _)| format!("{RSYNC_JAIL}{ca}/"))
+                .or_else(|| snap.iter().find(|(_, c)| c.as_ref().and_then(|c| c["resources"].as_object().map(|m| m.values().any(|rc| rc["key_state"].to_string().to_uppercase().contains(&key)))).unwrap_or(false)).map(|(h, _)| format!("{RSYNC_JAIL}{h}/")))
+        }).collect();
+        let only_empty_cert = !empty_certs.is_empty()
+            && w.rej.keys().all(|u| empty_certs.contains(u) || empty_cert_children.iter().any(|p| u.starts_with(p)))
+            && unlisted.iter().all(|u| empty_cert_children.iter().any(|p| u.starts_with(p)))
+            && w.missing.is_empty() && api_missing.is_empty() && !rrdp_diff;
         let failure = if w.rej.is_empty() && w.missing.is_empty() && unlisted.is_empty() && vr_missing.is_empty() && vr_extra.is_empty() && !as_diff && !rk_diff && api_missing.is_empty() && !rrdp_diff { "none".to_string() }
             else if rej_products_overclaim_armed && w.missing.is_empty() && unlisted.is_empty() && vr_extra.is_empty() && vr_missing.iter().all(|v| rejected_payloads.contains(v)) && api_missing.is_empty() && !rrdp_diff {
                 "overclaiming_products_after_roll_under_smaller_cert".to_string() }
+            else if only_empty_cert { "certificate_without_resources_published".to_string() }
             else {
                 let mut parts = Vec::new();
                 if !w.rej.is_empty() { let mut kinds: BTreeSet<String> = BTreeSet::new(); for (u, why) in &w.rej { kinds.insert(format!("{}:{}", u.rsplit('.').next().unwrap_or("?"), why.split(':').next().unwrap_or("?"))); } parts.push(format!("rejected[{}]", kinds.into_iter().collect::<Vec<_>>().join(","))); }
@@ -832,7 +851,7 @@ impl Hist<'_> {
             "expected": {"vrps": exp_vrps.len(), "aspas": exp_aspas.len(), "router_keys": exp_rkeys.len()},
             "vrps_missing": vr_missing, "vrps_extra": vr_extra, "api_objects": api.len(), "api_object_not_in_repo": api_missing,
             "rrdp_snapshot_files": rrdp.as_ref().map(|v| v.len()), "derivation_steps": deriv_descs, "aspa_router_derivation_steps": adescs,
-            "armed_f04c": self.armed.iter().map(|(a, b)| format!("{a}/{b}")).collect::<Vec<_>>()});
+            "undecodable": undecodable, "armed_f04c": self.armed.iter().map(|(a, b)| format!("{a}/{b}")).collect::<Vec<_>>()});
         use std::io::Write;
         writeln!(o.jsonl, "{rec}").unwrap();
         o.distinct.insert(format!("{}|{}|{}|{:?}|{:?}|{}", files.len(), w.vrps.len(), w.aspas.len(), keystates, kinds, connected));
@@ -890,7 +909,7 @@ fn key_tags_of(sys: &Sys, ca: &str) -> Vec<String> {
     ca_json(sys, ca).and_then(|c| c["resources"].as_object().map(|m| m.values().map(keystate_tag).collect())).unwrap_or_default()
 }
 
-fn run_history(args: &Args, hist: u64, seed: u64, n_ops: u64, every: u64, out: &Mutex<Out>) {
+fn run_history(args: &Args, hist: u64, seed: u64, n_ops: u64, every: u64, emptycert: bool, out: &Mutex<Out>) {
     let mut rng = Rng::new(seed);
     let dir = args.out.join(format!("h{hist}"));
     let _ = std::fs::remove_dir_all(&dir);
@@ -1045,6 +1064,18 @@ fn run_history(args: &Args, hist: u64, seed: u64, n_ops: u64, every: u64, out: &
             if let Err(e) = &res { *o.err_hist.entry(canon_err(e)).or_default() += 1; }
         }
         h.ops_since.push(json!({"op": desc, "error": res.as_ref().err().map(|e| e.chars().take(160).collect::<String>())}));
+        if !emptycert && st.ent["c"] & st.ent["b"] == 0 {
+            // default shaping (as in the C02 scenario): the entitlement of c at b never misses everything b is about to hold,
+            // otherwise a request of c that is open at that moment makes b sign a certificate without resources (C02 finding
+            // F02f, not repaired; --emptycert 1 lets it happen)
+            let low = st.ent["b"] & st.ent["b"].wrapping_neg();
+            let op = json!({"op": "guard_entitlement", "child": "c", "mask": low});
+            let r = h.observe(&op, |s| {
+                s.update_child_resources("b", "c", atoms_to_resources(low)).or_else(|_| { let _ = s.sync_parent("b", "a"); s.update_child_resources("b", "c", atoms_to_resources(low)) }).map_err(|e| e.to_string())
+            });
+            if r.is_ok() { st.ent.insert("c", low); }
+            h.ops_since.push(json!({"op": op, "error": r.as_ref().err()}));
+        }
         if (n + 1) % every == 0 || n + 1 == n_ops {
             h.quiesce();
             h.check(&json!({"point": "after op", "n": n + 1}));
@@ -1061,6 +1092,8 @@ fn main() {
     let n_ops = args.get_u64("ops", if args.thorough() { 120 } else { 40 });
     let every = args.get_u64("every", if args.thorough() { 12 } else { 10 });
     let threads = args.get_u64("threads", 6) as usize;
+    let emptycert = args.get_u64("emptycert", 0) == 1;     // 1: do not keep c's entitlement inside what b is about to hold (C02 finding F02f)
+    let only = args.extra.get("only").and_then(|s| s.parse::<u64>().ok());      // development: run one history of the set
     let header = "From KV Require Import base.Tac ca.Ca rp.Rp rp.RoaDerive rp.RpCheck.\nOpen Scope N_scope.";
     let footer = "Eval vm_compute in (failing agrees base_index cases).\nEval vm_compute in (failing c01_ok base_index cases).";
     let out = Mutex::new(Out { w: CaseWriter::new(&args.out, header, "list case", footer, 4),
@@ -1077,7 +1110,8 @@ fn main() {
             let out = &out; let args = &args;
             s.spawn(move || {
                 for (h, sd) in chunk {
-                    let r = std::panic::catch_unwind(std::panic::AssertUnwindSafe(|| run_history(args, h, sd, n_ops, every, out)));
+                    if only.map(|o| o != h).unwrap_or(false) { continue }
+                    let r = std::panic::catch_unwind(std::panic::AssertUnwindSafe(|| run_history(args, h, sd, n_ops, every, emptycert, out)));
                     if let Err(p) = r {
                         let msg = p.downcast_ref::<String>().cloned().or_else(|| p.downcast_ref::<&str>().map(|s| s.to_string())).unwrap_or("panic".into());
                         out.lock().unwrap().impl_failures.push(json!({"index": null, "history": h, "class": {"panic": true}, "what": format!("panic while running the history: {msg}")}));
@@ -1089,7 +1123,7 @@ fn main() {
     let mut o = out.into_inner().unwrap();
     o.w.flush();
     write_json(&args.out.join("stats.json"), &json!({
-        "scenario": "c01", "seed": args.seed, "tier": args.tier, "histories": n_hist, "ops_per_history": n_ops, "check_every": every,
+        "scenario": "c01", "seed": args.seed, "tier": args.tier, "histories": n_hist, "ops_per_history": n_ops, "check_every": every, "emptycert_mode": emptycert,
         "evaluations": o.w.total, "distinct_nontrivial": o.distinct.len(),
         "rule": "random histories (ROA add/remove incl. bursts per origin AS and max-length ROAs, ASPA and router-key definitions, entitlement grow/shrink at every level, parent syncs, key roll init/activate, child suspend/unsuspend/remove/re-add, republish, renew, repo sync) on TA->a->{b->c,d} with a real publication server under aggregation thresholds 1/2, 3/5 and 90/100; every K operations the task queue is pumped and all CAs are synchronised, then one case = the complete repository content decoded and verified with the rpki crate (reference top-down walk) + its abstraction + expected payloads from the API views + API-reported objects + RRDP snapshot + ROA derivation steps since the last point; every case is non-trivial (>= 5 publication points); distinct = distinct (file count, VRP count, ASPA count, key states, object kinds, connected classes)",
         "op_distribution": o.op_hist, "error_distribution": o.err_hist, "roa_mode_distribution": o.mode_hist, "connected_distribution": o.connected_hist,
